@@ -61,6 +61,7 @@ MANIFEST = dict(
               "trace-equivalence with the extracted program + live race / crash-injection tests")
 
 FINDING_KEY = "F-C15-unlink: clean stop between another start's open(lock) and F_SETLK"
+PIDFILE_FINDING_KEY = "F-C15-pidfile-late-unlink: a stopping munged unlinks the pid file by name after it has released the lock"
 SYSLOG_FINDING_KEY = "F-C15-syslog-closes-stderr: --syslog in background mode frees descriptor 2 after sanitize_std_fds"
 TRACE = "trace=%file,bind,listen,fcntl,close,unlink,unlinkat,openat,socket,rename,write"
 INJECT_SET = "openat,unlink,bind,listen,fcntl,close,socket"
@@ -1593,6 +1594,12 @@ def force_schedule(ctx, exe, tag, prog, sched, pos):
         res["pids"] = {q: v["pid"] for q, v in procs.items()}
         res["canary"] = canary(D.sock) if live else None
         res["lock_holder"] = lock_holder(D.lock)
+        try:
+            res["pid_file"] = int(open(D.pid).read().strip())
+        except OSError:
+            res["pid_file"] = None          # no pid file
+        except ValueError:
+            res["pid_file"] = "unreadable"
         return res
     finally:
         for pid in D.procs():
@@ -1650,11 +1657,12 @@ def gap_schedules(prog):
     return out
 
 
-def forced_interleavings(ctx, exe, oracle, prog, pos, concrete, corr, dist):
+def forced_interleavings(ctx, exe, oracle, prog, pos, concrete, corr, dist, expected_prog=None):
     """search on the observed program + the gap family, each forced on live daemons; the clause 'at most one munged is
     bound to the socket path' evaluated on /proc"""
     P = " ".join(prog)
     jobs = []              # (name, schedule labels, model bound list or None)
+    model_obs = {}         # name -> the model's final observation (oracle command Y)
     limit, maxpre = (3000000, 99) if ctx.thorough else (400000, 3)
     rc, out, err = vlib.run_lines([oracle], ["B 3 %d %d 1 ; %s" % (limit, maxpre, P)], timeout=300)
     found = None
@@ -1675,6 +1683,7 @@ def forced_interleavings(ctx, exe, oracle, prog, pos, concrete, corr, dist):
                 head, taken = line.rsplit(" ; ", 1)
                 mb = head.rsplit("bound=", 1)[1].strip()
                 jobs.append((name, taken.split(), [x for x in mb.split(",") if x]))
+                model_obs[name] = head
     if not jobs:
         return
     with ThreadPoolExecutor(max_workers=10) as ex:
@@ -1697,6 +1706,26 @@ def forced_interleavings(ctx, exe, oracle, prog, pos, concrete, corr, dist):
                              "[%s] = %s (%s); lock file held by %s"
                              % (len(r["bound"]), r["bound"], r["schedule"], describe_schedule(prog, r["schedule"].split()), name,
                                 r["lock_holder"]), rep))
+        elif len(r["bound"]) == 1 and r["pid_file"] != r["bound"][0]:
+            # the one live, bound daemon has no pid file (or one that names somebody else)
+            b = r["bound"][0]
+            text = ("after the interleaving [%s] = %s (%s) munged pid %d is alive, bound to the socket path, holds the lock (%s) and "
+                    "%s, but its pid file %s" % (r["schedule"], describe_schedule(prog, r["schedule"].split()), name, b,
+                                                 r["lock_holder"], "serves" if not r["canary"] else "does not serve",
+                                                 "is gone" if r["pid_file"] is None else "names %s" % r["pid_file"]))
+            mo = model_obs.get(name, "")
+            mm = re.search(r"\| lock=(\S+) sock=(\S+) pid=(\S+) seed=\S+ \| pidfile=(\S+) listener=(\S+) lockholder=(\S+)", mo)
+            model_same = bool(mm) and mm.group(3) == "-" and mm.group(5) == mm.group(6) != "-" and mbound == [mm.group(5)] \
+                and ("running/%d/0" % prog.index("serve")) in mo.split("|")[0].split()
+            if expected_prog is not None and prog == expected_prog and model_same and r["pid_file"] is None \
+                    and r["lock_holder"] == b and not r["canary"]:
+                # exactly the history of C15_pidfile_late_unlink_refuted, on the unchanged step order, as the model says
+                ctx.violation(text + " — the stopping daemon unlinked it by name (destroy_conf) after releasing the lock",
+                              dict(rep, finding_key=PIDFILE_FINDING_KEY,
+                                   model_witness="C15_pidfile_late_unlink_refuted: late_unlink_sched 0 1", model=mo),
+                              found_input=True)
+            else:
+                concrete.append((text, rep))
         elif r["live"] and r["canary"] and len(r["bound"]) == 1 and mbound is not None:
             concrete.append(("after the interleaving [%s] (%s) the surviving munged does not serve on the socket path: %s"
                              % (r["schedule"], name, r["canary"]), rep))
@@ -2164,7 +2193,7 @@ def _run_live(ctx, exe, oracle, concrete, corr):
         # ---- (f) forced interleavings of the observed program
         if oracle and live_prog and live_pos and (replay is None or replay.get("scenario") == "forced"):
             if replay is None:
-                forced_interleavings(ctx, exe, oracle, live_prog, live_pos, concrete, corr, dist)
+                forced_interleavings(ctx, exe, oracle, live_prog, live_pos, concrete, corr, dist, expected_prog=prog)
             else:
                 r = force_schedule(ctx, exe, "fr", live_prog, replay["schedule"].split(), live_pos)
                 ctx.count(("forced-replay", replay["schedule"]))
